@@ -13,6 +13,7 @@ import (
 	"strings"
 	"sync"
 	"testing"
+	"time"
 )
 
 type vrng struct{ s uint64 }
@@ -107,4 +108,16 @@ func TestVerif(t *testing.T) {
 	c.w = bufio.NewWriterSize(out, 1<<20)
 	defer c.w.Flush()
 	f(c)
+}
+
+// bounded runs f and reports whether it returned within d (a wedged agent must not wedge the harness).
+func bounded(d time.Duration, f func()) bool {
+	done := make(chan bool, 1)
+	go func() { f(); done <- true }()
+	select {
+	case <-done:
+		return true
+	case <-time.After(d):
+		return false
+	}
 }
